@@ -769,6 +769,15 @@ def FName.entFriendly : FName → Bool
   | .safe | .newline_to_br => false
   | _ => true
 
+/-- filters admitted by `autoescape_noop_on_clean`. Excluded: those that *observe* an escaped value (measure, cut, search or
+replace inside it: `size slice truncate truncatewords split remove* replace*`), those that can *introduce* a special character
+(`url_decode base64_decode base64_url_safe_decode newline_to_br`), and `squish` (no proof made). -/
+def FName.noopOk : FName → Bool
+  | .append | .prepend | .upcase | .downcase | .capitalize | .escape | .escape_once | .lstrip | .rstrip | .strip | .strip_html
+  | .strip_newlines | .url_encode | .base64_encode | .base64_url_safe_encode | .safe | .escapejs | .join | .first | .last
+  | .reverse | .concat | .default => true
+  | _ => false
+
 def FCall.okE (f : FCall) : Bool := f.name.entFriendly && f.args.all Arg.okE
 
 def Cond.okE : Cond → Bool
